@@ -12,7 +12,7 @@ pub fn run(seed: u64, tier: &str, out: &mut Out) {
     let texts = ["", "m", "\t", "m\t1\t", "\t\tp", "a b", "x\ty"];
     for _ in 0..n {
         let k = rng.range(1, 12);
-        let rec = Recorder::new(5, 200, false);
+        let rec = Recorder::new(60_000, 200, false);   // tall enough for a line of several 65536-column tabs (nothing is emulated here)
         let pb = ProgressBar::with_draw_target(Some(10), ProgressDrawTarget::term_like(Box::new(rec.clone())));
         let mut case = String::from("TAB");
         let mut has_style = false;
@@ -24,11 +24,15 @@ pub fn run(seed: u64, tier: &str, out: &mut Out) {
             match mode { 0 => w.write_str(text).unwrap(), 1 => for c in text.chars() { w.write_char(c).unwrap() }, _ => for c in text.chars() { write!(w, "{}", c).unwrap() } } })); };
         let mut cur_k = 0usize;;
         for _ in 0..k {
-            match rng.below(6) {
+            match rng.below(7) {
+                // a style taken from another bar, which has another tab width (the style carries that width with it)
+                6 => { let k = rng.below(4) as usize; case += &format!(" ; style {k}"); has_style = true;
+                       let donor = ProgressBar::with_draw_target(Some(10), ProgressDrawTarget::hidden()); donor.set_tab_width(*rng.pick(&[0usize, 2, 3, 8, 13]));
+                       set_style(&donor, k, rng.below(3)); pb.set_style(donor.style()); key0 = KEYS[k].to_string(); cur_k = k; }
                 // a style derived from the bar's current one (`style().template(..)`): same keys, template parsed anew
                 5 if has_style => { case += &format!(" ; style {cur_k}"); let st = pb.style().template("a\tb {prefix}|{msg}|{k}").unwrap(); pb.set_style(st); }
                 5 => {}
-                0 | 1 => { let w = *rng.pick(&[0usize, 0, 1, 2, 4, 8, 13]); case += &format!(" ; tw {w}"); pb.set_tab_width(w); tw = w; }
+                0 | 1 => { let w = if rng.chance(1, 40) { 65_536 } else { *rng.pick(&[0usize, 0, 1, 2, 4, 8, 13]) }; case += &format!(" ; tw {w}"); pb.set_tab_width(w); tw = w; }
                 2 => { let k = rng.below(4) as usize; case += &format!(" ; style {k}"); has_style = true; set_style(&pb, k, rng.below(3)); key0 = KEYS[k].to_string(); cur_k = k; }
                 3 => { let t = *rng.pick(&texts); case += &format!(" ; msg {}", cps(t)); pb.set_message(t); msg0 = t.to_string(); }
                 _ => { let t = *rng.pick(&texts); case += &format!(" ; prefix {}", cps(t)); pb.set_prefix(t); pfx0 = t.to_string(); }
